@@ -8,9 +8,9 @@ from gunicorn.pidfile import Pidfile
 ID = "C17"
 LEVEL = "fault_enumeration"
 DESIGN_REF = "DESIGN.md §4 C17"
-QUICK_RUNS = 20000
+QUICK_RUNS = 160000
 THOROUGH_MIN_RUNS = 100000
-BATCH = 500
+BATCH = 2000
 CASE_WALL_S = 30.0
 EXHAUSTIVE = True
 RULE = ("case = a seeded history of {create, validate, rename, unlink, foreign overwrite, owner death, pid recycled, stale "
